@@ -102,7 +102,7 @@ theorem vcompat_symm (a b : DimVal) : vcompat a b = vcompat b a := by
 /-- `compare` is the three-way form of `vlt` and does not panic on compatible values. -/
 theorem cmpVal_spec {a b : DimVal} (h : vcompat a b = true) :
     cmpVal a b = some (if vlt a b then -1 else if vlt b a then 1 else 0) := by
-  cases a <;> cases b <;> simp_all [cmpVal, vlt, vcompat, ty, cmp3] <;> grind
+  cases a <;> cases b <;> simp_all [cmpVal, vlt, vcompat, ty, cmp3, DimVal.typeName] <;> grind
 
 theorem vlt_irrefl (a : DimVal) : vlt a a = false := by
   cases a <;> simp [vlt]
@@ -173,6 +173,31 @@ theorem less_eq_lexLt {ks : List OrderBy} {a b : FlatRow} (h : Compat ks a b = t
 theorem less_no_panic {ks : List OrderBy} {a b : FlatRow} (h : Compat ks a b = true) :
     lessP ks a b ≠ none := by
   simp [lessP_eq_lexLt h]
+
+/-- Since /repo 8a9a760 `compare` has a result for EVERY pair of dynamic values (different types
+    are ordered by type name; Go `uint` is compared as `uint`): no type assertion can fail. -/
+theorem cmpVal_total (a b : DimVal) : (cmpVal a b).isSome = true := by
+  unfold cmpVal
+  repeat' split
+  all_goals rfl
+
+/-- … hence `orderedRows.Less` never panics, whatever the rows hold (no `Compat` hypothesis). -/
+theorem less_never_panics (ks : List OrderBy) (a b : FlatRow) : (lessP ks a b).isSome = true := by
+  induction ks with
+  | nil => rfl
+  | cons o ks ih =>
+    unfold lessP
+    split
+    · simp only []; repeat' split
+      all_goals first | rfl | exact ih
+    · simp only []
+      split
+      · rename_i h
+        have := cmpVal_total (if o.desc then b.get o.field else a.get o.field)
+          (if o.desc then a.get o.field else b.get o.field)
+        simp [h] at this
+      · repeat' split
+        all_goals first | rfl | exact ih
 
 /-! ## `lexLt` is a strict weak order -/
 
@@ -401,12 +426,14 @@ example : limitOffset 2 1 (isort exKeys exRows) = [exR2, exR5] := by decide
 example : limitOffset 0 3 (isort exKeys exRows) = [exR1, exR3] := by decide
 example : limitOffset 7 4 (isort exKeys exRows) = [exR3] := by decide
 example : limitOffset 3 9 (isort exKeys exRows) = [] := by decide
--- a column holding values of two types is NOT comparable (and `Less` panics on it)
+-- a column holding values of two types is not `Compat`-comparable; since /repo 8a9a760 `Less`
+-- orders such values by the name of their type ("int" < "string") instead of panicking
 example : Compat [⟨"d", false⟩] exR1 { ts := 0, key := [("d", .int .int 1)], fields := [] } = false ∧
-    lessP [⟨"d", false⟩] exR1 { ts := 0, key := [("d", .int .int 1)], fields := [] } = none := by
+    lessP [⟨"d", false⟩] exR1 { ts := 0, key := [("d", .int .int 1)], fields := [] } = some false ∧
+    lessP [⟨"d", false⟩] { ts := 0, key := [("d", .int .int 1)], fields := [] } exR1 = some true := by
   decide
--- Go `uint` dimensions: `compare` asserts uint64 and panics
-example : cmpVal (.int .uint 1) (.int .uint 2) = none := by decide
+-- Go `uint` dimensions: `compare` used to assert uint64 and panic; now compared by value
+example : cmpVal (.int .uint 1) (.int .uint 2) = some (-1) := by decide
 -- fields shadow dimensions of the same name (`FlatRow.Get` looks at fields first)
 example : ({ ts := 0, key := [("v", .str "z")], fields := [("v", 4)] } : FlatRow).get "v" =
     .float false 4 := by decide
